@@ -15,6 +15,7 @@ import (
 
 	"github.com/itchyny/rassemble-go"
 
+	"github.com/coreruleset/crs-toolchain/v2/internal/verifhook"
 	"github.com/coreruleset/crs-toolchain/v2/regex"
 	"github.com/coreruleset/crs-toolchain/v2/regex/parser"
 	"github.com/coreruleset/crs-toolchain/v2/regex/processors"
@@ -123,6 +124,7 @@ func (a *Operator) complete(assembleParser *parser.Parser) string {
 	if err != nil {
 		logger.Fatal().Err(err).Msg("Final pass failed")
 	}
+	verifhook.Emit("pass:runFinalPass", a.lines, result)
 
 	if len(assembleParser.Prefixes) > 0 && len(assembleParser.Suffixes) > 0 && len(result) > 0 {
 		result = "(?:" + result + ")"
@@ -130,28 +132,44 @@ func (a *Operator) complete(assembleParser *parser.Parser) string {
 	prefixes := strings.Join(assembleParser.Prefixes, "")
 	suffixes := strings.Join(assembleParser.Suffixes, "")
 	result = prefixes + result + suffixes
+	verifhook.Emit("pass:affixes", append(append([]string{}, assembleParser.Prefixes...), assembleParser.Suffixes...), result)
 
 	if len(result) > 0 {
 		logger.Trace().Msgf("Applying last cleanups to %s\n", result)
+		verifInRunSimplificationAssembly := result
 		result = a.runSimplificationAssembly(result)
+		verifhook.Emit("pass:runSimplificationAssembly", []string{verifInRunSimplificationAssembly}, result)
 		logger.Trace().Msgf("After simplification assembly: %s\n", result)
+		verifInUseHexEscapes := result
 		result = a.useHexEscapes(result)
+		verifhook.Emit("pass:useHexEscapes", []string{verifInUseHexEscapes}, result)
 		logger.Trace().Msgf("After replacing non-printable characters with hex escapes: %s\n", result)
+		verifInEscapeDoublequotes := result
 		result = a.escapeDoublequotes(result)
+		verifhook.Emit("pass:escapeDoublequotes", []string{verifInEscapeDoublequotes}, result)
 		logger.Trace().Msgf("After escaping double quotes: %s\n", result)
+		verifInUseHexBackslashes := result
 		result = a.useHexBackslashes(result)
+		verifhook.Emit("pass:useHexBackslashes", []string{verifInUseHexBackslashes}, result)
 		logger.Trace().Msgf("After replacing plain backslashes with hex escapes: %s\n", result)
+		verifInIncludeVerticalTabInSpaceClass := result
 		result = a.includeVerticalTabInSpaceClass(result)
+		verifhook.Emit("pass:includeVerticalTabInSpaceClass", []string{verifInIncludeVerticalTabInSpaceClass}, result)
 		logger.Trace().Msgf("After including vertical tabs: %s\n", result)
+		verifInDontUseFlagsForMetaCharacters := result
 		result = a.dontUseFlagsForMetaCharacters(result)
+		verifhook.Emit("pass:dontUseFlagsForMetaCharacters", []string{verifInDontUseFlagsForMetaCharacters}, result)
 		logger.Trace().Msgf("After removing meta character flags: %s\n", result)
+		verifInRemoveOutermostNonCapturingGroup := result
 		result = a.removeOutermostNonCapturingGroup(result)
+		verifhook.Emit("pass:removeOutermostNonCapturingGroup", []string{verifInRemoveOutermostNonCapturingGroup}, result)
 		logger.Trace().Msgf("After removing outermost non-capturing group: %s\n", result)
 	}
 
 	if len(flagsPrefix) > 0 && len(result) > 0 {
 		result = flagsPrefix + result
 	}
+	verifhook.Emit("pass:flagsPrefix", []string{flagsPrefix}, result)
 
 	return result
 }
